@@ -73,6 +73,8 @@ static void c13_strings(const std::vector<std::string>& cat, int maxsites, int m
       for (int i = 0; i <= L; i++) for (char c : {'_', 'x', '1'}) { std::string s = n; s.insert(i, 1, c); add(s); }
       for (int i = 0; i < L; i++) if (n[i] == '_') { std::string s = n; s[i] = '-'; add(s); s[i] = ' '; add(s); }
       add(""); add("-"); add(" "); add("- -");
+      // names wrapped in a matching pair of delimiters (quotes, brackets), with and without separators next to them: not names
+      for (const char* pr : {"''", "\"\"", "``", "()", "[]", "{}", "<>", "||", "__", "xx"}) { std::string a2(1, pr[0]), b2(1, pr[1]); add(a2 + n + b2); add(a2 + " " + n + " " + b2); add(" " + a2 + n + b2 + " "); add(a2 + up + b2); add(a2 + n); add(n + b2); }
       // every single-bit flip of every character (a comparison that masks one bit -- the ASCII case bit, say -- for non-letters too)
       for (int i = 0; i < L; i++) for (int bit = 0; bit < 8; bit++) { std::string t2 = n; t2[i] = (char)((unsigned char)t2[i] ^ (1u << bit)); add(t2); }
       // paddings of length <= 3 over {blank, dash, c} that contain the special byte c at least once, behind and in front of the name
@@ -259,7 +261,7 @@ static int mode_c14(const Caps& D, const Caps& P) {
       // the complete observation (name, dimension, sanity, every parameter and vector, every documented evaluator, init_param)
       // is compared bit for bit with the one of context 0 (empty registry)
       std::string obs0;
-      for (int ctx = 0; ctx < (fixture ? 1 : 9); ctx++) {
+      for (int ctx = 0; ctx < (fixture ? 1 : 9 + (int)cd.size()); ctx++) {
         fflush(OUT);
         int pfd[2]; if (pipe(pfd)) { perror("pipe"); exit(2); }
         pid_t pid = fork();
@@ -277,6 +279,9 @@ static int mode_c14(const Caps& D, const Caps& P) {
                 case 3: masa_init<S>("h", other); break;
                 case 4: masa_init<S>("h", n); dirty(); masa_init<S>("other", n); masa_select_mms<S>("other"); masa_select_mms<S>("h"); break;
                 case 5: masa_init<S>("other", n); masa_purge_default_param<S>(); break;
+                default: if (ctx >= 9) { std::string first = cd[ctx - 9]; if (first == "masa_test_function" || first == "masa_uninit") first = other; std::string tmpn;
+                    // contexts 9..: the handle held catalogue entry #k, was asked its name, was re-initialised with another entry without being asked -- and is now initialised with n
+                    masa_init<S>("h", first); masa_get_name<S>(&tmpn); masa_init<S>("h", other == first ? std::string("laplace_2d") : other); } break;
                 case 6: masa_init<S>("h", n); dirty(); masa_init<S>("other", other); masa_select_mms<S>("h"); masa_init<S>("other", n); masa_select_mms<S>("h"); break;
               }
               masa_init<S>("h", n);
